@@ -897,6 +897,9 @@ func (g *c17DocGen) expect() []c17ExDomain {
 
 func newC17Gen(rng *rand.Rand, style int) *c17DocGen {
 	g := &c17DocGen{rng: rng, root: newC17Node(), maxDepth: 1 + rng.Intn(5), maxItems: 2 + rng.Intn(8), entities: []int{0, 0, 5, 30}[rng.Intn(4)]}
+	if rng.Intn(7) == 0 { // wide and shallow: many lines and keys (with repeats) in one domain
+		g.maxDepth, g.maxItems = 1+rng.Intn(2), 18+rng.Intn(25)
+	}
 	switch style {
 	case 1:
 		g.utf8 = true
